@@ -20,6 +20,19 @@ P = {
             "binary really issues are validated by guard-page + debug-assertion runs of the correspondence check (all backends, both "
             "placements), not by the theorem.",
             "Coq proof (refinement to reference parsers => no Fault) + guard-page differential correspondence"),
+    "C03": ("proof",
+            "Theorems request/response/headers_complete_framed, *_partial_unterminated, chunk_complete_framed, chunk_partial_unterminated "
+            "(Thm/C03.v): on Complete(n) the buffer is (start line ending in LF) ++ body ++ (CRLF|LF) ++ rest with n just past that empty line, "
+            "no LF in LF::body is directly followed by an empty line (so it is the first one), the empty line stands at a line start unless "
+            "allow_space_before_first_header_name is on, and n <= len; on Partial either the start line is unfinished or no empty line follows it; "
+            "chunk sizes: n is just past the first CR LF, Partial means no CR LF. For every backend, entry point, config, capacity, buffer.",
+            "Coq proof (segment invariant over the reference header grammar + refinement), + extracted linear-scan oracle on the implementation"),
+    "C05": ("proof",
+            "Theorems request_hygiene, response_hygiene, head_clean_request/response/headers, strs_are_utf8, value_shape_spelled (Thm/C05.v): "
+            "method/name tokens non-empty tchar, target non-empty uri-char and valid UTF-8, version 0/1, code < 1000, reason ASCII reason-chars or "
+            "the empty fallback, values class-clean and trimmed at both ends, consumed head free of NUL and of CR not followed by LF. PARTIAL: for "
+            "folded values the clause 'CRLF/LF only directly before SP/HTAB' is carried by the extracted oracle check_C05 + correspondence, not by a theorem.",
+            "Coq proof (class lemmas per reference stage + generic segment pass), + extracted oracle on the implementation"),
     "C06": ("proof",
             "Theorem request_ref_eq / request_entries_ref_eq (Thm/C06.v): the model of all four request entry points equals the span-level "
             "reference grammar ref_request for every backend satisfying EnvOk, config, capacity and buffer (unbounded). Tie: model vs crate "
